@@ -37,6 +37,30 @@ CAUGHT = {
  "C04-1": ("C04", "crash:Aborted (quill's size / length asserts), crash:Segmentation_fault (also C08: crash:Aborted)", "missed by C04 at first (caught by C08 only); caught after C04 plans also ran on dropping queues"),
  "C04-2": ("C04", "message_differs_from_call_site_formatting typed_site=102", "missed at first; caught after the char call site produced non-printable values"),
  "C07-1": ("C07", "completed_statement_missing_after_exit, statement_missing_after_stop", ""),
+ # ---- wave 5 (ids -3 / -4): a second pair per property from fresh sub-agents
+ "C03-3": ("C03", "lost", "(same mechanism as C03-1, other wording)"),
+ "C03-4": ("C03", "lost", "(same mechanism as C20-2)"),
+ "C05-3": ("C05", "timestamp_order_inversion", ""),
+ "C05-4": ("C05", "timestamp_order_inversion", "TSC-clock loggers bypass the grace-period hold-back: needs a TSC logger and a thread stalled between reading the TSC and enqueuing"),
+ "C06-3": ("C06", "flush_returned_before_other_threads_statement_written / _in_file, flush_returned_before_sink_flushed", ""),
+ "C06-4": ("C10", "flush_returned_with_a_healthy_sink_unflushed", "(same mechanism as C06-2: needs a sink whose flush throws, caught by the C10 check)"),
+ "C07-4": ("C07", "completed_statement_missing_after_exit, statement_missing_after_stop", ""),
+ "C10-3": ("C10", "flush_returned_with_a_healthy_sink_unflushed", ""),
+ "C10-4": ("C10", "wrong_attribution", ""),
+ "C17-3": ("C17", "blocking_removal_never_returns", ""),
+ "C17-4": ("C17", "lookup_not_idempotent", "missed at first; caught after C17 plans let several threads create the same not yet existing logger at the same time"),
+ "C09-3": ("C09", "blocked_log_call_never_resumes, fitting_statement_dropped_on_empty_queue (SIM-SYS level)", ""),
+ "C09-4": ("C09", "reservation_refused_although_queue_empty_and_consumer_idle (queue level), blocked_log_call_never_resumes", ""),
+ "C16-3": ("C16", "wrong_attribution", "(same mechanism as C16-1)"),
+ "C16-4": ("C16", "wrong_attribution", "(same mechanism as C16-2)"),
+ "C20-3": ("C20", "thread_contexts_not_reclaimed", "(same mechanism as C20-1)"),
+ "C20-4": ("C20", "delivery:lost", "(same mechanism as C20-2)"),
+ "C18-3": ("C18", "backtrace_replay_differs_from_model", ""),
+ "C18-4": ("C18", "backtrace_replay_differs_from_model", "missed at first; caught after C18 histories re-initialised with the same capacity while the ring holds statements"),
+ "C04-3": ("C04", "crash:Aborted (quill's size asserts), crash:Segmentation_fault, message_differs_from_call_site_formatting", "(same mechanism as C04-1)"),
+ "C04-4": ("C04", "message_differs_from_call_site_formatting", "missed at first; caught after C04 / C11 runs varied BackendOptions::check_printable_char (default, stricter user callback, none)"),
+ "C08-3": ("C08", "reported_drop_count_mismatch direction=under_reported", "(same mechanism as C08-1)"),
+ "C08-4": ("C08", "crash:Aborted (quill's size assert); also C04", "(same mechanism as C04-1)"),
  "C07-2": ("C07", "handler_notice_missing, statement_of_signalled_thread_missing, wrong_exit_status", "missed at first; caught after a second delivery of the same signal to another thread was added to C07 programs (and pause() interposed)"),
  "C11-1": ("C11", "steady_state_log_call_allocated typed_site=144/145/146", "missed at first; caught after call sites with more than twelve string values in one statement were added"),
  "C11-2": ("C11", "steady_state_log_call_allocated typed_site=130", ""),
